@@ -71,6 +71,7 @@ func checkC20(c *Check) {
 	c.inboundLookup("C20.2 lookup-key", "C20.1 one-mutex")
 	c.passiveNeverDials("C20.5 passive-never-dials")
 	c.passiveOption("C20.5 passive-option")
+	c.registryKeys("C20.1 registry-keys")
 	c.accumulatorsStartEmpty("C20.2 accumulators", "Server.ListPeers")
 	isExists := func(e *Expr) bool {
 		return e.Op == "ex" && len(e.Args) == 2 && e.Args[0].Op == "val" && isBoolType(e.Typ)
